@@ -22,7 +22,9 @@ MIN_DISTINCT_OUTCOMES = 2
 
 VALID = ['O', 'AX', 'ZN', 'CH', 'FR', 'PA']
 REJECT = ['R:zone-type', 'R:zone-enum', 'R:zone-name', 'R:axis-type', 'R:param-ref', 'R:chan-cast', 'R:chan-type',
-          'R:frame-type', 'R:origin-dup', 'R:set-value', 'R:set-units', 'R:tool-status']
+          'R:frame-type', 'R:origin-dup', 'R:set-value', 'R:set-units', 'R:tool-status',
+          # rejections raised as RuntimeError (units for an attribute that cannot carry units), through both routes
+          'R:zone-units', 'R:chan-units']
 
 
 def depth(tier):
@@ -84,6 +86,10 @@ def rejected_op(r, handles):
     if r == 'R:set-units':
         return {'op': 'set', 'h': handles['zone'][-1], 'attr': 'description', 'part': 'units', 'value': 'm',
                 'expect': 'raise'}
+    if r == 'R:zone-units':
+        return S.op_add('zone', 'RJ', 'X', expect='raise', description={'$as': {'value': 'some text', 'units': 'm'}})
+    if r == 'R:chan-units':
+        return S.op_add('channel', 'RJ', 'X', expect='raise', dimension={'$dict': {'value': [1], 'units': 'm'}})
     if r == 'R:tool-status':
         return S.op_add('tool', 'RJ', 'X', expect='raise', status=2)
     raise ValueError(r)
